@@ -213,3 +213,13 @@ Print Assumptions read_time_add.
 Print Assumptions to_raw_total.
 Print Assumptions to_raw_bad_time.
 Print Assumptions load_text_total.
+
+From RS Require Import StartStageStmts StartStageFacts.
+Theorem text_start_stage_returns : stmt_text_start_stage_returns.
+Proof.
+  intros base t r perm i Ht Hr Hv Hres Hp Hu.
+  destruct (start_stage_returns r perm i Hv Hres Hp Hu) as [nw [Hl [Hty Hrest]]].
+  exists nw. split; [|split; assumption].
+  unfold load_text. rewrite Hr. cbn [bind]. exact Hl.
+Qed.
+Print Assumptions text_start_stage_returns.
